@@ -120,6 +120,12 @@ Proof.
   - do 7 eexists. split; [vm_compute; reflexivity|]. split; [vm_compute; reflexivity|]. split; [reflexivity|]. split; [reflexivity|]. split; vm_compute; reflexivity.
 Qed.
 
+(** every generated definition used above is the translation of the CURRENT source (when a function
+    leaves the translatable shapes the generator emits a fall-back text for the executable check only
+    and sets this flag to false: this obligation then breaks) *)
+Example C16_translation_current : samplergen_current = true.
+Proof. reflexivity. Qed.
+
 Print Assumptions C16_complement_lookup_sound.
 Print Assumptions C16_bond_complementary.
 Print Assumptions C16_step_adds_one_fragment_one_bond.
